@@ -20,3 +20,13 @@ Print Assumptions flows_layout_is_the_regenerated_code.
 Theorem model_flow_outputs_use_flow_layout : model_flow_outputs_use_flow_layout.
 Proof. exact model_flow_outputs_use_flow_layout_proof. Qed.
 Print Assumptions model_flow_outputs_use_flow_layout.
+
+(* Engine.to_function itself, regenerated: for every element / value type, all dictionaries of variables, every integer
+   level, with and without extra outputs and declared parameters, cs.Function is handed exactly the generic layouts (values
+   in, values out, names in, names out in their roles); on the model's dictionaries these are ToFunction.v's lists *)
+Theorem to_function_layout_is_the_regenerated_code : to_function_layout_is_the_regenerated_code.
+Proof. exact to_function_layout_is_the_regenerated_code_proof. Qed.
+Print Assumptions to_function_layout_is_the_regenerated_code.
+Theorem model_layouts_are_the_generic_ones : model_layouts_are_the_generic_ones.
+Proof. exact model_layouts_are_the_generic_ones_proof. Qed.
+Print Assumptions model_layouts_are_the_generic_ones.
